@@ -68,7 +68,7 @@ def presets(tier):
                 always = ['major', 'minor', 'patch', 'bumped_timestamp', 'pre_release', 'post', 'dev', 'distance', 'bumped_branch', 'bumped_commit_hash']
                 if tier != 'quick':
                     always = ['major', 'minor', 'patch', 'bumped_timestamp', 'distance', 'bumped_commit_hash']
-                cfg = dict(always=always, never=['last_timestamp'], num_max=9, text_len=1 if tier == 'quick' else 2)
+                cfg = dict(always=always, never=['last_timestamp'], num_max=9, text_len=1)   # thorough with 2-char texts in the 16 presets ran past the two-hour cap
                 if tier == 'quick':
                     cfg.update(num_min_major=1, num_min_minor=1, num_min_patch=1, num_min_distance=1)
                 # calendar correctness is C17's subject: presets use a fixed instant (2024-03-05T09:07:03Z: one-digit month/day)
